@@ -3,7 +3,7 @@
     Stream "requests": a rule set, a request path and an equivalent re-encoding
     of it, and what the real server + requestcontext + repository + rule did with
     both.  Stream "units": rule_impl.go's unescape on byte strings. *)
-From HV Require Export Base.Prelude Base.GoUrl C08.Model.
+From HV Require Export Base.Prelude Base.GoUrl C08.Model C08.Spec.
 
 Local Open Scope char_scope.
 
@@ -45,7 +45,7 @@ Definition wellformed (s : string) : bool := match unescape s with Some _ => tru
 Definition equiv_paths (a b : string) : bool :=
   wellformed a && wellformed b && String.eqb (norm a) (norm b).
 
-Definition enc_slash_ci (s : string) : bool := contains "%2F" s || contains "%2f" s.
+(** ** the property on the implementation's observation (vocabulary of C08/Spec.v) *)
 
 (** the model's answer and the request line of its upstream URL against the observation *)
 Definition corr1 (fx : fixes) (c : case) (raw : string) (o : outcome) (uri : string) : bool :=
@@ -56,78 +56,88 @@ Definition corr1 (fx : fixes) (c : case) (raw : string) (o : outcome) (uri : str
   | _ => true
   end.
 
-(** what the property compares between a request and its re-encoding *)
-Definition same_decision (a b : outcome) : bool :=
-  match a, b with
-  | BadRequest, BadRequest | NoRule, NoRule | Precondition, Precondition => true
-  | Accepted r1 d1 c1 _, Accepted r2 d2 c2 _ =>
-    String.eqb r1 r2 && Bool.eqb d1 d2 && list_eqb cap_eqb (sort_caps c1) (sort_caps c2)
-  | _, _ => false
-  end.
-
-Definition setting_of (rules : list rule) (rid : string) : setting :=
-  match find (fun r => String.eqb (r_id r) rid) rules with
-  | Some r => r_setting r
-  | None => Off
-  end.
+(** rule ids are unique in the generated rule sets *)
+Definition rule_of (rules : list rule) (rid : string) : option rule :=
+  find (fun r => String.eqb (r_id r) rid) rules.
 
 (** an encoded slash is never accepted by a rule with setting off nor by the default rule *)
 Definition off_ok (rules : list rule) (raw : string) (o : outcome) : bool :=
   match o with
   | Accepted rid d _ _ =>
-    negb (enc_slash_ci raw && (d || setting_eqb (setting_of rules rid) Off))
+    negb (enc_slash raw &&
+          (d || match rule_of rules rid with Some r => setting_eqb (r_setting r) Off | None => true end))
   | _ => true
   end.
 
-(** a captured value shows "%2F" only if the request contained an encoded slash
-    (or an encoded "%" in front of "2F") *)
-Definition caps_ok (raw : string) (o : outcome) : bool :=
+Definition spec_capture (st : setting) (v : string) : string :=
+  match st with NoDecode => decode_keep_slash v | _ => unescape_or_empty v end.
+
+(** every captured value is the decoding (per setting) of a piece of the request path *)
+Definition caps_ok (rules : list rule) (raw : string) (o : outcome) : bool :=
   match o with
-  | Accepted _ _ cs _ =>
-    negb (existsb (fun kv => contains "%2F" (snd kv)) cs) ||
-    enc_slash_ci raw || contains "%2F" (unescape_or_empty raw)
+  | Accepted rid false cs _ =>
+    match rule_of rules rid with
+    | Some r => forallb (fun kv => existsb (fun v => String.eqb (snd kv) (spec_capture (r_setting r) v)) (pieces raw)) cs
+    | None => false
+    end
+  | _ => true
+  end.
+
+(** an encoded slash stays encoded in the upstream path under no_decode and is
+    decoded under on (rules that forward without rewriting) *)
+Definition up_ok (rules : list rule) (raw query : string) (o : outcome) (uri : string) : bool :=
+  match o with
+  | Accepted rid false _ (Some u) =>
+    match rule_of rules rid with
+    | Some r =>
+      match r_backend r with
+      | Some b =>
+        if negb (enc_slash raw) || match b_rw b with Some _ => true | None => false end then true
+        else match r_setting r with
+             | NoDecode => String.eqb (u_rawpath u) raw &&
+                           String.eqb uri (if is_empty query then raw else raw ++ String "?" query)
+             | On => is_empty (u_rawpath u) && String.eqb (u_path u) (unescape_or_empty raw) &&
+                     negb (enc_slash (fst (cut_on "?" uri)))
+             | Off => true
+             end
+      | None => true
+      end
+    | None => false
+    end
   | _ => true
   end.
 
 Definition prop (c : case) : bool :=
   (negb (equiv_paths (c_raw c) (c_raw2 c)) || same_decision (o_a c) (o_b c)) &&
   off_ok (c_rules c) (c_raw c) (o_a c) && off_ok (c_rules c) (c_raw2 c) (o_b c) &&
-  caps_ok (c_raw c) (o_a c) && caps_ok (c_raw2 c) (o_b c) &&
-  outcome_eqb (serve repaired (c_rules c) (c_dflt c) (c_host c) (c_raw c) (c_query c)) (o_a c) &&
-  outcome_eqb (serve repaired (c_rules c) (c_dflt c) (c_host c) (c_raw2 c) (c_query c)) (o_b c).
+  caps_ok (c_rules c) (c_raw c) (o_a c) && caps_ok (c_rules c) (c_raw2 c) (o_b c) &&
+  up_ok (c_rules c) (c_raw c) (c_query c) (o_a c) (o_auri c) &&
+  up_ok (c_rules c) (c_raw2 c) (c_query c) (o_b c) (o_buri c).
 
-(** ** guards of the findings on the generated input *)
+(** ** guards of the findings on the generated input (C08/Spec.v) *)
 
-(** C08-F1: a segment that was re-encoded meets a literal segment of some route (in either spelling) *)
-Fixpoint f1_pat (pat : list seg) (segs segs' : list string) : bool :=
-  match pat, segs, segs' with
-  | Lit l :: p, s :: r, s' :: r' =>
-    (negb (String.eqb s s') && (String.eqb l s || String.eqb l s')) || f1_pat p r r'
-  | Wild _ :: p, _ :: r, _ :: r' => f1_pat p r r'
-  | _, _, _ => false
+Definition g_F1 (c : case) : bool := guard_F1 (c_rules c) (c_raw c) (c_raw2 c).
+
+Definition g_F2 (c : case) : bool := guard_F2 (c_raw c) (c_raw2 c).
+
+(** the path the repository looks up for a request target ("" if the target is refused) *)
+Definition lookup_of (c : case) (raw : string) : string :=
+  match view (c_host c) raw (c_query c) with
+  | Some u => lookup_path u
+  | None => EmptyString
   end.
 
-Definition segs_of (raw : string) : list string :=
-  match path_segs raw with Some l => l | None => [] end.
-
-Definition g_F1 (c : case) : bool :=
-  existsb (fun r => existsb (fun t => f1_pat (rt_pat t) (segs_of (c_raw c)) (segs_of (c_raw2 c))) (r_routes r))
-          (c_rules c).
-
-Definition g_F2 (c : case) : bool := contains "%2f" (c_raw c) || contains "%2f" (c_raw2 c).
-
-Definition has_off_params (rules : list rule) : bool :=
-  existsb (fun r => setting_eqb (r_setting r) Off && existsb (fun t => negb (is_nil (rt_params t))) (r_routes r)) rules.
-
+(** C08-F3: an `off` rule with path_params (and an escape in the looked-up path,
+    which may come from EscapedPath re-encoding the request path) *)
 Definition g_F3 (c : case) : bool :=
-  has_off_params (c_rules c) && (mem_ascii "%" (c_raw c) || mem_ascii "%" (c_raw2 c)).
+  guard_F3 (c_rules c) &&
+  (mem_ascii "%" (lookup_of c (c_raw c)) || mem_ascii "%" (lookup_of c (c_raw2 c))).
 
+(** C08-F4: a byte net/url does not accept, together with an encoded slash *)
 Definition g_F4 (c : case) : bool :=
-  (negb (valid_encoded (c_raw c)) && enc_slash_ci (c_raw c)) ||
-  (negb (valid_encoded (c_raw2 c)) && enc_slash_ci (c_raw2 c)).
+  (guard_F4 (c_raw c) && enc_slash (c_raw c)) || (guard_F4 (c_raw2 c) && enc_slash (c_raw2 c)).
 
-Definition g_F5 (c : case) : bool :=
-  contains slash_ph (unescape_or_empty (c_raw c)) || contains slash_ph (unescape_or_empty (c_raw2 c)).
+Definition g_F5 (c : case) : bool := guard_F5 (c_raw c) || guard_F5 (c_raw2 c).
 
 Definition check (fx : fixes) (c : case) : verdict :=
   {| v_corr := corr1 fx c (c_raw c) (o_a c) (o_auri c) && corr1 fx c (c_raw2 c) (o_b c) (o_buri c);
@@ -145,10 +155,8 @@ Definition ucheck (fx : fixes) (c : ucase) : verdict :=
   {| v_corr := String.eqb (unescape_capture fx Off v) (uo_off c) &&
                String.eqb (unescape_capture fx NoDecode v) (uo_nodecode c) &&
                String.eqb (unescape_capture fx On v) (uo_on c);
-     v_prop := String.eqb (unescape_capture repaired Off v) (uo_off c) &&
-               String.eqb (unescape_capture repaired NoDecode v) (uo_nodecode c) &&
-               String.eqb (unescape_capture repaired On v) (uo_on c) &&
-               (negb (contains "%2F" (uo_nodecode c)) || enc_slash_ci v || contains "%2F" (unescape_or_empty v)
-                || negb (wellformed v));
-     v_guards := guards [(2%Z, contains "%2f" v && negb (fx2 fx));
-                         (5%Z, contains slash_ph (unescape_or_empty v) || contains "$$$" v)] |}.
+     v_prop := negb (wellformed v) ||
+               (String.eqb (uo_off c) (decode_keep_slash v) &&
+                String.eqb (uo_nodecode c) (decode_keep_slash v) &&
+                String.eqb (uo_on c) (unescape_or_empty v));
+     v_guards := guards [(2%Z, contains "%2f" v && negb (fx2 fx)); (5%Z, guard_F5 v)] |}.
